@@ -232,6 +232,16 @@ type tcpWorld struct {
 	memberHistory                 []memberEvent
 	onServerConn                  func(w *tcpWorld, p *peer, b *world.Backend)
 	startedStep                   int64
+	changeDone                    map[int64]int64 // step at which a membership change was requested -> step at which its task returned
+	changeTasks                   map[int64]*simhook.Task
+	removed                       []removedHost
+	pendingRemoved                []removedHost
+}
+
+type removedHost struct {
+	node int
+	step int64 // request step (pending) / completion step (removed)
+	how  string
 }
 
 type memberEvent struct {
@@ -241,7 +251,7 @@ type memberEvent struct {
 
 func newTCPWorld(sc *TCPScenario) *tcpWorld {
 	return &tcpWorld{sc: sc, byHeader: map[string]*peer{}, fired: make([]bool, len(sc.Faults)), faultSteps: make([]int64, len(sc.Faults)),
-		firstConn: -1, faultsFired: map[string]int{}, members: map[int]bool{}, startedStep: -1}
+		firstConn: -1, faultsFired: map[string]int{}, members: map[int]bool{}, startedStep: -1, changeDone: map[int64]int64{}, changeTasks: map[int64]*simhook.Task{}}
 }
 
 func (w *tcpWorld) Setup(rt *simhook.Runtime) {
@@ -414,6 +424,16 @@ func (w *tcpWorld) Check() *simrt.Violation {
 			return &simrt.Violation{Clause: "stream-is-prefix-of-sent", Detail: fmt.Sprintf("%s (%s): %s", p.name, p.header, p.bad)}
 		}
 	}
+	for reqStep, t := range w.changeTasks {
+		if t.State == simhook.StDead && w.changeDone[reqStep] == 0 {
+			w.changeDone[reqStep] = w.rt.Step
+			for i := range w.pendingRemoved {
+				if w.pendingRemoved[i].step == reqStep {
+					w.removed = append(w.removed, removedHost{node: w.pendingRemoved[i].node, step: w.rt.Step, how: w.pendingRemoved[i].how})
+				}
+			}
+		}
+	}
 	if w.step != nil {
 		if v := w.step(w); v != nil {
 			return v
@@ -443,6 +463,14 @@ func (w *tcpWorld) fireFaults() {
 					w.startedStep = w.rt.Step
 				}
 				due = w.startedStep >= 0 && w.rt.Step-w.startedStep >= int64(f.AfterStart-1)
+			}
+		}
+		if due && strings.HasPrefix(f.Kind, "host-") {
+			// the controller applies membership changes one after the other: wait for the previous one
+			for _, t := range w.hostTasks {
+				if t.State != simhook.StDead {
+					due = false
+				}
 			}
 		}
 		if !due {
@@ -481,9 +509,15 @@ func (w *tcpWorld) inject(f *TCPFault) bool {
 			return false
 		}
 		hs := w.hostsOf(f, f.Node)
+		was := w.members[f.Node]
 		delete(w.members, f.Node)
 		w.snapshotMembers()
-		w.hostTasks = append(w.hostTasks, w.rt.Go("harness:host-remove", func() { p.OnSvcHostRemove(hs) }))
+		tk := w.rt.Go("harness:host-remove", func() { p.OnSvcHostRemove(hs) })
+		w.hostTasks = append(w.hostTasks, tk)
+		w.changeTasks[w.rt.Step] = tk
+		if was {
+			w.pendingRemoved = append(w.pendingRemoved, removedHost{node: f.Node, step: w.rt.Step, how: "OnSvcHostRemove with a fresh Host object, as the controller does"})
+		}
 		return true
 	case "host-add":
 		if p == nil {
@@ -492,19 +526,31 @@ func (w *tcpWorld) inject(f *TCPFault) bool {
 		hs := w.hostsOf(f, f.Node)
 		w.members[f.Node] = true
 		w.snapshotMembers()
-		w.hostTasks = append(w.hostTasks, w.rt.Go("harness:host-add", func() { p.OnSvcHostAdd(hs) }))
+		tk := w.rt.Go("harness:host-add", func() { p.OnSvcHostAdd(hs) })
+		w.hostTasks = append(w.hostTasks, tk)
+		w.changeTasks[w.rt.Step] = tk
 		return true
 	case "host-replace":
 		if p == nil {
 			return false
 		}
 		hs := w.hostsOf(f, f.Nodes...)
+		old := w.members
 		w.members = map[int]bool{}
 		for _, i := range f.Nodes {
-			w.members[i] = true
+			if i < len(w.env.Backends) {
+				w.members[i] = true
+			}
 		}
 		w.snapshotMembers()
-		w.hostTasks = append(w.hostTasks, w.rt.Go("harness:host-replace", func() { p.OnSvcAllHostReplace(hs) }))
+		tk := w.rt.Go("harness:host-replace", func() { p.OnSvcAllHostReplace(hs) })
+		w.hostTasks = append(w.hostTasks, tk)
+		w.changeTasks[w.rt.Step] = tk
+		for i := range old {
+			if !w.members[i] {
+				w.pendingRemoved = append(w.pendingRemoved, removedHost{node: i, step: w.rt.Step, how: "OnSvcAllHostReplace without it"})
+			}
+		}
 		return true
 	case "backend-down":
 		w.env.SetAccepting(f.Node, false)
